@@ -165,9 +165,6 @@ theorem limit_iff_counterexample : ¬ limit_iff_statement := by
   rw [htree]
   apply expand_single_seq_limit _ _ (mkSeq 9223372036854775806 9223372036854775807 1) (by rfl)
   -- two values, then the wrapped −2^63 and the 16383 values after it
-  have e1 : limit + 1 = (limit - 2 + 1) + 1 + 1 := by decide
-  rw [e1, seqVals_succ, if_pos (by decide), seqVals_succ, if_pos (by decide)]
-  simp only [List.length_cons]
-  rw [seqVals_length_up1 _ (by decide) (by decide) (by decide) _ _ (by decide) (by decide)]
+  exact seqVals_overflow_len _ rfl rfl rfl (limit - 1) (by decide)
 
 end ShVerif.C16
